@@ -75,6 +75,10 @@ def trace_to_root(core, g, operand, root, _depth=0, _helpers=None, _suffix=None)
         if g.path == root.path or _depth >= 8:
             out.append((g, o))
             continue
+        # (a closure called through a reference reads its captures as `(*self).^name`)
+        while g.kind == 'Closure' and o.kind == 'arg' and o.n == 1 and len(o.suffix or []) > 1 and o.suffix[0] == '*' and \
+                any(tok.startswith('.^') for tok in o.suffix[:3]):
+            o = Origin(o.kind, **dict({k: v for k, v in o.__dict__.items() if k != 'kind'}, suffix=list(o.suffix[1:])))
         if g.kind == 'Closure' and o.kind == 'arg' and o.n == 1 and o.suffix and o.suffix[0].startswith('.^'):
             name = o.suffix[0][2:]
             # the bodies that construct this closure: its lexical parent, or — when the parent was a helper spliced into its callers — the
